@@ -90,15 +90,37 @@ func report(prop, tier string, seed int, results []*harnessResult, loadDur, wall
 		if r.solverErrors > 0 {
 			inconclusive = append(inconclusive, fmt.Sprintf("%s: %d solver error line(s)", h, r.solverErrors))
 		}
-		for l, n := range r.trivial {
+		// implicit obligations (panic, lock balance, blocking) are recorded under the harness's first
+		// property; they count for every property the harness serves
+		serves := false
+		for _, p := range r.info.props {
+			if p == prop {
+				serves = true
+			}
+		}
+		implicit := func(l string) bool {
+			return strings.HasSuffix(l, ".no_panic") || strings.HasSuffix(l, ".lock_balance") || strings.HasSuffix(l, ".no_block") || strings.HasSuffix(l, ".no_deadlock")
+		}
+		relabel := func(l string) (string, bool) {
 			if labelProp(l) == prop {
-				get(h, l).trivial += n
+				return l, true
+			}
+			if serves && implicit(l) && labelProp(l) == r.info.props[0] {
+				return prop + l[len(labelProp(l)):], true
+			}
+			return l, false
+		}
+		for l, n := range r.trivial {
+			if nl, ok := relabel(l); ok {
+				get(h, nl).trivial += n
 			}
 		}
 		for _, ob := range r.obligs {
-			if labelProp(ob.Label) != prop {
+			nl, ok := relabel(ob.Label)
+			if !ok {
 				continue
 			}
+			ob.Label = nl
 			a := get(h, ob.Label)
 			switch ob.Result {
 			case "unsat":
